@@ -372,6 +372,37 @@ def worker(case: Dict[str, Any]) -> CaseResult:
                 (root / "qdir" / "sub" / "broken.gql").write_text("query { a( ")
                 cfg["queries_path"] = "qdir"
                 token = "broken.gql"
+            elif where == "schema-dir-dangling-description":
+                # invalid on its own (a description that describes nothing), valid only if glued to the file sorted after it
+                (root / "sdir").mkdir()
+                (root / "sdir" / "a_main.graphql").write_text(SCHEMA + '\n"""describes the next file\'s type"""\n')
+                (root / "sdir" / "b_extra.graphql").write_text("type Extra { x: Int }\n")
+                cfg["schema_path"] = "sdir"
+                token = "a_main.graphql"
+            elif where == "schema-dir-truncated":
+                (root / "sdir").mkdir()
+                (root / "sdir" / "a_main.graphql").write_text(SCHEMA + "\ntype Extra { x: Int\n")
+                (root / "sdir" / "b_rest.graphql").write_text("y: Int }\n")
+                cfg["schema_path"] = "sdir"
+                token = "a_main.graphql"
+            elif where == "schema-dir-empty-file":
+                (root / "sdir").mkdir()
+                (root / "sdir" / "a_main.graphql").write_text(SCHEMA)
+                (root / "sdir" / "b_empty.graphql").write_text("# nothing here yet\n")
+                cfg["schema_path"] = "sdir"
+                token = "b_empty.graphql"
+            elif where == "queries-dir-split-fragment":
+                (root / "qdir").mkdir(parents=True)
+                (root / "qdir" / "a_ops.graphql").write_text(QUERIES + "\nquery WithF { node { ...F } }\nfragment F on Node")
+                (root / "qdir" / "b_body.graphql").write_text("{ id }\n")
+                cfg["queries_path"] = "qdir"
+                token = "a_ops.graphql"
+            elif where == "queries-dir-empty-file":
+                (root / "qdir").mkdir(parents=True)
+                (root / "qdir" / "a_ops.graphql").write_text(QUERIES)
+                (root / "qdir" / "z_empty.graphql").write_text("")
+                cfg["queries_path"] = "qdir"
+                token = "z_empty.graphql"
             expected_classes = ("InvalidGraphqlSyntax",)
         elif kind == "schema":
             sdl = dict(INVALID_SCHEMAS)[label]
@@ -537,7 +568,8 @@ def all_cases(tier: str) -> List[Dict[str, Any]]:
         for st in (states if tier == "thorough" else [states[idx % 4], states[(idx + 2) % 4]]):
             cases.append({"kind": "config", "label": label, "strategy": strategy, "state": st, "idx": idx})
         idx += 1
-    for where in ("schema", "queries", "schema-dir", "queries-dir"):
+    for where in ("schema", "queries", "schema-dir", "queries-dir", "schema-dir-dangling-description", "schema-dir-truncated", "schema-dir-empty-file",
+                  "queries-dir-split-fragment", "queries-dir-empty-file"):
         for st in states:
             cases.append({"kind": "syntax", "label": where, "where": where, "strategy": "client", "state": st, "idx": idx})
         if where.startswith("schema"):
@@ -570,7 +602,7 @@ def schema_mechanism(label: str) -> str:
 
 def run(tier: str, seed: int) -> int:
     r = core.Run(PROP, tier, seed, level="fault_enumeration")
-    r.rule = ("one case per documented configuration constraint x 2-4 concrete violations, 4 syntax-error placements, %d invalid schemas (one per graphql-core schema validation "
+    r.rule = ("one case per documented configuration constraint x 2-4 concrete violations, 9 syntax-error placements (single files, directories, files that are invalid alone but would parse when glued to their neighbour, empty files), %d invalid schemas (one per graphql-core schema validation "
               "branch, each confirmed invalid by graphql-core in the harness), %d invalid operations (one or more per specified validation rule, confirmed likewise), each x "
               "target states {absent, empty, previous generation, unrelated user files} (quick: 1-2 states per fault, thorough: all four); plus %d valid configurations; "
               "distinct = distinct fault label" % (len(INVALID_SCHEMAS), len(INVALID_OPS), len(VALID)))
